@@ -75,6 +75,9 @@ def generate(rng, tier):
                     if rng.random() < 0.08:
                         lines.append("SS 0 %s 0 -" % hx(p))
                         nulls = nulls or (o.default not in (None,))
+                    elif rng.random() < 0.15:
+                        # line ends of either convention, and lone carriage returns, inside a string: each byte is itself
+                        lines.append("SS 0 %s 0 %s" % (hx(p), hx(rng.choice([b"a\r\nb", b"\r\n", b"x\r", b"\r\r\n\n", b"l1\nl2\r\nl3", b"tab\tcr\rlf\n"]))))
                     else:
                         lines.append("SS 0 %s 0 %s" % (hx(p), hx(rbytes(rng))))
                 elif o.ty == "str":
